@@ -524,6 +524,21 @@ def scenarios(ctx):
     return quick
 
 
+CLI_MINE = ('silent_corruption', 'hang', 'exception')
+
+
+def cli_probes(ctx, rep):
+    """process level: damaged repositories on disk restored by fresh `python -m replicat` processes - the EXIT STATUS is what a user
+    or a script sees; objects larger than any internal block size; a failing restore must end"""
+    from harness import cli_hist
+    cli_hist.run_scenarios(ctx, rep, {'corrupt': ctx.scale(5, 40)}, CLI_MINE)
+    import random as _r
+    from pathlib import Path as _P
+    rep.case(('large-object-corruption',), nontrivial=True)
+    rep.violations.extend(cli_hist.large_object_corruption(_P(ctx.scratch) / 'large', _r.Random(ctx.rng.randint(0, 2 ** 31))))
+    cli_hist.termination_probe(ctx, rep, {'restore'})
+
+
 def run(ctx) -> Report:
     rep = Report(rule=RULE)
     for rid, (cipher, hashing, backend) in enumerate(scenarios(ctx)):
@@ -540,6 +555,7 @@ def run(ctx) -> Report:
         repo, case = try_build(rep, self_backup_repo, ctx.rng, ctx.scratch, 50 + j, cipher) or (None, None)
         if repo is not None:
             check_repo(ctx, rep, repo, [case], with_model=False)
+    cli_probes(ctx, rep)
     return rep
 
 
@@ -560,6 +576,10 @@ def search(ctx, broken) -> Report:
 
 
 def replay(ctx, obj):
+    from harness import cli_hist
+    rc = cli_hist.replay_cli(ctx, obj, CLI_MINE)
+    if rc is not None:
+        return rc
     r = obj.get('replay') or {}
     if 'repo' not in r or 'case' not in r:
         print('replay file does not carry a corruption case:', obj.get('kind'))
